@@ -842,7 +842,19 @@ func (o c11Op) apply(w *c11World) c11Res {
 	case "Slice":
 		return c11Res{seq: gts.Slice(h, o.a, o.b)}
 	case "Concat":
-		return c11Res{seq: gts.Concat(w.operands(o.v)...)}
+		// the caller's own slice is spread into the variadic parameter (as gts
+		// join and Regions.Locate do), now and then with an empty piece in the
+		// middle: the slice holds the same sequences afterwards.
+		ss := w.operands(o.v)
+		if len(ss) >= 2 && (o.a+len(o.v))%2 == 0 {
+			ss = append(append(append([]gts.Sequence{}, ss[:1]...), gts.New(nil, nil, nil)), ss[1:]...)
+		}
+		before := heldSeq(ss...)
+		res := gts.Concat(ss...)
+		if after := heldSeq(ss...); after != before {
+			c11ArgList = "the argument slice held\n" + before + "and holds\n" + after
+		}
+		return c11Res{seq: res}
 	case "Reverse":
 		return c11Res{seq: gts.Reverse(h)}
 	case "Rotate":
@@ -1149,7 +1161,13 @@ func (m c11) run(c *fw.Ctx, k *c11Case) {
 	// It returns the result (ok=false after a panic) and whether to go on.
 	step := func(o c11Op) (res c11Res, sh c11Shadow, ok, goOn bool) {
 		undecoded := w.host.org != nil && !w.host.org.Parsed && p.L > 0
+		c11ArgList = ""
 		panicked, val, site, stack := fw.Guard(func() { res = o.apply(w) })
+		if c11ArgList != "" {
+			c.Violate(o.name+":argument-list-modified", enc, "the slice spread into the call holds the same sequences afterwards", c11ArgList+"   (after "+o.String()+")")
+			c11ArgList = ""
+			return res, sh, false, false
+		}
 		if undecoded && w.host.org.Parsed {
 			c.Bucket("unparsed-origin-decoded-by-operation")
 		}
@@ -1465,3 +1483,6 @@ func (m c11) Run(c *fw.Ctx) {
 		m.run(c, &c11Case{p: p, prog: prog})
 	}
 }
+
+// c11ArgList reports a changed argument slice from inside an operation.
+var c11ArgList string
